@@ -70,6 +70,9 @@ fn perms3(s: &[usize]) -> Vec<[usize; 3]> {
 
 impl RegistryScn {
     fn trio_sets(&self) -> Vec<Vec<usize>> {
+        if self.group == "trios" {
+            return vec![vec![0, 1, 2], vec![0, 1, 3], vec![0, 2, 3], vec![1, 2, 3]];
+        }
         if self.n_assets >= 4 {
             vec![vec![0, 1, 2], vec![0, 2, 3]]
         } else {
@@ -183,6 +186,16 @@ impl Scenario for RegistryScn {
                     }
                 }
                 v.push(RegAct::CreatePair { a: 0, b: 0 });
+            }
+            "trios" => {
+                for s in self.trio_sets() {
+                    for p in perms3(&s) {
+                        v.push(RegAct::CreateTrio { a: p[0], b: p[1], c: p[2] });
+                    }
+                    // removal in two of the six orders
+                    v.push(RegAct::RemoveTrio { a: s[0], b: s[1], c: s[2] });
+                    v.push(RegAct::RemoveTrio { a: s[2], b: s[0], c: s[1] });
+                }
             }
             "vaults" => {
                 for a in 0..n {
@@ -365,7 +378,7 @@ impl Scenario for RegistryScn {
     fn invariants(&self, w: &mut World, h: &RegH, g: &RegG, cx: &mut Cx) {
         let ai = |i: usize| h.assets[i].clone();
         let n = self.n_assets;
-        if self.group == "pools" || self.group == "router" {
+        if self.group == "pools" || self.group == "router" || self.group == "trios" {
             // point queries, both orders, every unordered set
             for a in 0..n {
                 for bb in 0..n {
@@ -436,6 +449,9 @@ impl Scenario for RegistryScn {
                     }
                     cursor = page.trios.last().map(|p| p.asset_infos.clone());
                     acc.extend(page.trios.iter().map(|p| p.contract_addr.clone()));
+                }
+                if listed.len() >= 2 {
+                    cx.count("pagination:trios_multi_entry");
                 }
                 cx.check("pagination.returns_every_entry_exactly_once", acc == listed, || format!("Trios with limit {}: {:?} vs {:?}", limit, acc, listed));
             }
